@@ -92,7 +92,9 @@ def echo_item(x):
     return y
 
 
-def item_or_raise(x):
+def item_or_raise(x, tag=None):
+    if tag is not None:
+        return ('r', x, tag)
     if x == 'POISON':
         raise ValueError('poison item')
     if x == 'UNPICKLABLE':
